@@ -236,3 +236,12 @@ let register_c11 reg =
     | [outs; p; e; tol] -> show_bool (gauss_ok (zlist outs) (natv p) (zv e) (zv tol))
     | _ -> failwith "arity")
 let () = section register_c11
+
+(* ---- C18 *)
+let vev_of = function
+  | L [I t] -> (match z_to_int t with 0 -> VStart | 2 -> VFnEnd | 3 -> VRestart | 4 -> VStopCalled | 5 -> VStopReturned | 6 -> VCancel | _ -> failwith "vev")
+  | L [I t; k] when z_to_int t = 1 -> VFnStart (zv k)
+  | _ -> failwith "vev"
+let register_c18 reg =
+  reg "runner_trace_ok" (function [n; tr] -> show_bool (runner_trace_ok (zv n) (L.map vev_of (lv tr))) | _ -> failwith "arity")
+let () = section register_c18
